@@ -11,12 +11,40 @@
 #include <photon/common/utility.h>
 #include <photon/thread/thread.h>
 
+// ---- instrumented stand-ins for the photon primitives RingChannel uses (kind "chan") ----
+namespace photon {
+// photon::semaphore abstracted to a counter: wait = one step per attempt (flavor 0: take a token or stay
+// blocked; flavor 1: the timed wait times out), signal = one step
+struct verif_semaphore {
+    uint64_t cnt = 0;
+    const char* kind(const char* q, const char* s) const {
+        auto& m = e3::names().m; auto it = m.find((const void*)this);
+        return (it != m.end() && it->second == "ssem") ? s : q;
+    }
+    int wait(uint64_t c, uint64_t /*timeout*/ = -1) {
+        for (;;) {
+            e3::pre();
+            if (cnt >= c) { cnt -= c; e3::post(kind("semwait", "ssemwait"), nullptr, "1"); return 0; }
+            if (e3::flavor() == 1) { e3::post(kind("semwait", "ssemwait"), nullptr, "2"); errno = ETIMEDOUT; return -1; }
+            e3::post(kind("semwait", "ssemwait"), nullptr, "0");
+        }
+    }
+    int signal(uint64_t c) { e3::pre(); cnt += c; e3::post(kind("semsig", "ssemsig"), nullptr, std::to_string(cnt)); return 0; }
+};
+inline int verif_thread_yield() { e3::point("yield"); return 0; }
+volatile uint64_t now = 0;      // photon::now (no libphoton linked): constant, yield_timeout never expires
+}
+
 #define atomic verif_atomic
+#define semaphore verif_semaphore
+#define thread_yield verif_thread_yield
 #define private public
 #define protected public
 #include <photon/common/lockfree_queue.h>
 #undef private
 #undef protected
+#undef thread_yield
+#undef semaphore
 #undef atomic
 
 // pause policy for the templated send/recv: one stutter step of the spinning participant
@@ -94,6 +122,54 @@ static std::string final_state(BMPMC* q) {
     return "h=" + std::to_string(q->head.load()) + ",t=" + std::to_string(q->tail.load()) + ",wh=" + std::to_string(q->write_head.load()) +
            ",rt=" + std::to_string(q->read_tail.load()) + ",d=" + vlist(d);
 }
+// ---- RingChannel over an ATOMIC abstract bounded FIFO: exercises the real send/recv/notify code ----
+struct AbsQ {
+    std::vector<V> q; size_t capacity = 2;
+    bool push(const V& x) { e3::pre(); bool ok = q.size() < capacity; if (ok) q.push_back(x); e3::post("qpush", nullptr, ok ? "1" : "0"); return ok; }
+    bool pop(V& x) {
+        e3::pre(); bool ok = !q.empty();
+        if (ok) { x = q.front(); q.erase(q.begin()); e3::post("qpop", nullptr, "1", std::to_string(x)); } else e3::post("qpop", nullptr, "0");
+        return ok;
+    }
+    V recv() { V x = 0; while (!pop(x)) {} return x; }
+    bool empty() { return q.empty(); }
+    bool full() { return q.size() >= capacity; }
+    size_t read_available() const { return q.size(); }
+    size_t write_available() const { return capacity - q.size(); }
+};
+typedef photon::common::RingChannel<AbsQ> CHAN;
+static CaseOut run_chan(size_t capreq, uint64_t Y, int bound, const std::vector<Script>& scripts, const std::vector<int>& sched) {
+    CaseOut co;
+    e3::clear_names();
+    CHAN* ch = new CHAN(Y, 1000000);         // leaked on livelock
+    ch->capacity = capreq > 1 ? (size_t)1 << (64 - __builtin_clzll(capreq - 1)) : 2;
+    e3::name(&ch->idler, "idler"); e3::name(&ch->pending, "pending");
+    e3::name(&ch->send_waiters, "swait"); e3::name(&ch->send_pending, "spend");
+    e3::name(&ch->queue_sem, "qsem"); e3::name(&ch->send_sem, "ssem");
+    co.cap = ch->capacity;
+    int n = (int)scripts.size();
+    auto* results = new std::vector<std::vector<std::string>>(n);
+    auto* scs = new std::vector<Script>(scripts);
+    co.o = e3::run(n, sched, bound, [ch, results, scs, Y](int p) {
+        for (auto& o : (*scs)[p]) {
+            if (o.k == 's' || o.k == 'u' || o.k == 'U') { ch->template send<PhotonPause>(o.a.empty() ? 0 : o.a[0]); (*results)[p].push_back("s"); }
+            else (*results)[p].push_back(std::to_string(ch->recv(Y, 1000000)));
+            e3::mark_done();
+        }
+    });
+    for (int p = 0; p < n; p++) {
+        if (p) co.res += "|";
+        co.res += e3::join((*results)[p], ",");
+        if (!co.o.finished[p]) co.res += "*";
+    }
+    std::string qs; for (size_t i = 0; i < ch->q.size(); i++) { if (i) qs += ":"; qs += std::to_string(ch->q[i]); }
+    co.fin = "q=" + qs + ",idler=" + std::to_string(ch->idler.load()) + ",pend=" + std::to_string(ch->pending.load()) +
+             ",sw=" + std::to_string(ch->send_waiters.load()) + ",sp=" + std::to_string(ch->send_pending.load()) +
+             ",qsem=" + std::to_string(ch->queue_sem.cnt) + ",ssem=" + std::to_string(ch->send_sem.cnt);
+    if (!co.o.livelock) { delete ch; delete results; delete scs; }
+    return co;
+}
+
 static void prep(SPSC* q, V start) {
     q->head.store(start); q->tail.store(start);
     e3::name(&q->head, "head"); e3::name(&q->tail, "tail");
@@ -150,6 +226,7 @@ static CaseOut dispatch(const std::string& kind, size_t capreq, V start, int bou
     if (kind == "spsc") return run_case<SPSC>(capreq, start, bound, scripts, sched);
     if (kind == "mpmc") return run_case<MPMC>(capreq, start, bound, scripts, sched);
     if (kind == "bmpmc") return run_case<BMPMC>(capreq, start, bound, scripts, sched);
+    if (kind == "chan") return run_chan(capreq, start, bound, scripts, sched);
     CaseOut co; co.o.error = "BADKIND"; return co;
 }
 
